@@ -1,8 +1,11 @@
 package msgpackpatch
 
 import (
+	"bytes"
 	"errors"
 	"fmt"
+
+	"github.com/vmihailenco/msgpack/v5"
 )
 
 // OpKind identifies a mutation operation.
@@ -59,6 +62,16 @@ func Apply(blob []byte, ops []Op) ([]byte, error) {
 
 func applyOp(skel *Skeleton, orig []byte, op Op, path *Path) error {
 	switch op.Kind {
+	case OpSet, OpInc, OpAppend, OpPrepend, OpMerge:
+		// These ops splice op.Value (or parts of it) into the output verbatim.
+		// A missing Value is reported by the op itself as ErrInvalidOp.
+		if len(op.Value) > 0 {
+			if err := validateValue(op.Value); err != nil {
+				return err
+			}
+		}
+	}
+	switch op.Kind {
 	case OpSet:
 		return applySet(skel, op, path)
 	case OpDelete:
@@ -78,6 +91,21 @@ func applyOp(skel *Skeleton, orig []byte, op Op, path *Path) error {
 	default:
 		return fmt.Errorf("%w: unknown kind %d", ErrInvalidOp, op.Kind)
 	}
+}
+
+// validateValue checks that raw is exactly one well-formed msgpack value.
+// Op values are copied into the output blob byte for byte, so a truncated
+// value, trailing bytes or an unknown type code would otherwise produce a
+// corrupt blob that is reported (and stored) as a successful patch.
+func validateValue(raw []byte) error {
+	r := bytes.NewReader(raw)
+	if err := msgpack.NewDecoder(r).Skip(); err != nil {
+		return fmt.Errorf("%w: op value: %v", ErrInvalidMsgpack, err)
+	}
+	if r.Len() != 0 {
+		return fmt.Errorf("%w: op value has %d trailing bytes", ErrInvalidMsgpack, r.Len())
+	}
+	return nil
 }
 
 func opName(k OpKind) string {
